@@ -6,6 +6,44 @@ From Aranya Require Import base.Tactics gen.GenQueue model.TravQueue model.SegSt
 Lemma min_skip_gap_pin : MIN_SKIP_GAP = 10%N.
 Proof. reflexivity. Qed.
 
+
+(** [skip_target_boundaries] never hits its [assume] sites nor runs out of fuel. *)
+Lemma size_nat_bound p : (Npos p < 2 ^ N.of_nat (Pos.size_nat p))%N.
+Proof.
+  induction p as [p IH|p IH|]; cbn [Pos.size_nat].
+  - rewrite Nat2N.inj_succ, N.pow_succ_r'. lia.
+  - rewrite Nat2N.inj_succ, N.pow_succ_r'. lia.
+  - cbn. lia.
+Qed.
+
+Lemma stb_loop_total n : (n <= u64_max)%N -> forall fuel b acc,
+  (b <= n)%N -> (n - b <= 2 ^ N.of_nat (pred fuel))%N -> fuel <> 0 ->
+  exists l, stb_loop fuel n b acc = ROk l.
+Proof.
+  intro Hn. induction fuel as [|f IH]; intros b acc Hb Hgap Hf; [congruence|].
+  cbn [stb_loop pred] in *. destruct (N.ltb_spec 0 b); [|eauto].
+  destruct (N.ltb_spec n b); [lia|].
+  rewrite min_skip_gap_pin. destruct (N.leb_spec (n - b) 10); [eauto|].
+  assert (Hdiv : ((n - b) / 2 <= n - b)%N) by (apply N.div_le_upper_bound; lia).
+  destruct (N.ltb_spec u64_max (b + (n - b) / 2)); [lia|].
+  destruct f as [|f'].
+  - cbn in Hgap. lia.
+  - apply IH; try lia. cbn [pred]. rewrite Nat2N.inj_succ, N.pow_succ_r' in Hgap.
+    set (P := (2 ^ N.of_nat f')%N) in *.
+    pose proof (N.div_mod (n - b) 2 ltac:(lia)) as Hdm. pose proof (N.mod_upper_bound (n - b) 2 ltac:(lia)) as Hmu.
+    set (q := ((n - b) / 2)%N) in *. set (r := ((n - b) mod 2)%N) in *. lia.
+Qed.
+
+Definition skip_target_boundaries_total_stmt : Prop :=
+  forall n, (n <= u64_max)%N -> exists l, skip_target_boundaries n = ROk l.
+Lemma skip_target_boundaries_total_proof : skip_target_boundaries_total_stmt.
+Proof.
+  intros n Hn. unfold skip_target_boundaries. apply stb_loop_total; auto.
+  - apply N.div_le_upper_bound; lia.
+  - cbn [pred]. destruct n as [|p]; [cbn; lia|]. cbn [N.size_nat].
+    pose proof (size_nat_bound p). lia.
+Qed.
+
 Definition get_location_exact_stmt : Prop :=
   forall (st : store) (hs : heads) (id mc : N),
     store_ok st -> heads_ok st hs ->
